@@ -146,6 +146,11 @@ func init() {
 					}
 				}
 				fresh, _ := am.NewValueSet(toValues(items))
+				for _, v := range fresh.Values() {
+					if v.Value.IsValid() {
+						add("fresh-holds-values", "a value set just built from the same list already holds %q for %s", provOf(v.Value), v.String())
+					}
+				}
 				if len(items) > 0 {
 					if err := fresh.FromSignature(vals); err != nil {
 						add("fromsignature", "FromSignature: %v", err)
